@@ -157,6 +157,9 @@ def _run(ctx, n, nops, rep):
     cli_hist.scan_fault_probe(ctx, rep, CLI_MINE)
     # and over the remote adapters (B2 by bucket name and by bucket id, S3-compatible) against in-memory fake services
     remote_hist.remote_probe(ctx, rep, ('exception', 'restore_mismatch', 'referenced_chunk_missing'))
+    # ... and while the service fails one kind of call of a snapshot command for good (in every second trial the existence check of a
+    # chunk): whatever the command reports, what is listed afterwards has all its chunks
+    remote_hist.remote_fault_probe(ctx, rep, ('referenced_chunk_missing', 'restore_mismatch'), n=ctx.scale(12, 80), focus='snapshot', prefer_exists=True)
 
 
 def run(ctx) -> Report:
@@ -185,6 +188,7 @@ def replay(ctx, obj):
     if (obj.get('replay') or {}).get('probe') == 'remote':
         rep = Report(rule=RULE)
         remote_hist.remote_probe(ctx, rep, ('exception', 'restore_mismatch', 'referenced_chunk_missing'), deployments=[obj['replay']['deployment']])
+        remote_hist.remote_fault_probe(ctx, rep, ('referenced_chunk_missing', 'restore_mismatch'), n=40, focus='snapshot', prefer_exists=True)
         for v in rep.violations:
             print('VIOLATION-REPRODUCED', v['what'])
         return 1 if rep.violations else 0
